@@ -38,7 +38,15 @@ AbstractParameterAliasable::AbstractParameterAliasable(const AbstractParameterAl
 
 AbstractParameterAliasable& AbstractParameterAliasable::operator=(const AbstractParameterAliasable& ap)
 {
+  if (&ap == this)
+    return *this;
+
   AbstractParametrizable::operator=(ap);
+
+  // The parameters have all been replaced: forget the former independent
+  // parameters and the former aliases before taking those of ap.
+  independentParameters_.reset();
+  aliasListenersRegister_.clear();
 
   for (size_t i = 0; i < ap.independentParameters_.size(); i++)
   {
